@@ -182,7 +182,6 @@ def nt_rem(feat, script, canon):
 
 register(
     "C16",
-    claimed=False, na_reason="check being completed (wrapper proofs and the INT_MIN repair in progress)",
     lean_modules=["EventppVerif.Properties.C16"],
     fragments=["RemoverFrag"],
     theorems=[],
